@@ -44,8 +44,29 @@ func (c *AcmeStorages) Acquire(name string) *AcmeCerts {
 		}
 		c.items[name] = storage
 		c.itemsAdd[name] = storage
+	} else if _, changing := c.itemsAdd[name]; !changing {
+		// A storage that was already committed is about to be changed without
+		// being removed first, e.g. a new ingress shares the secret of another
+		// one that was not touched. Track the committed state as removed and
+		// continue on a copy, otherwise new domains would be silently added.
+		// shrink() reverts this tracking if nothing changes.
+		c.itemsDel[name] = storage
+		storage = storage.clone()
+		c.items[name] = storage
+		c.itemsAdd[name] = storage
 	}
 	return storage
+}
+
+func (c *AcmeCerts) clone() *AcmeCerts {
+	certs := make(map[string]struct{}, len(c.certs))
+	for cert := range c.certs {
+		certs[cert] = struct{}{}
+	}
+	return &AcmeCerts{
+		certs:          certs,
+		preferredChain: c.preferredChain,
+	}
 }
 
 // Updated ...
